@@ -24,6 +24,7 @@ var vPctRe = regexp.MustCompile(`(-?\d+)%`)
 
 var vProgressNames = []string{"a.txt", "中文文件名很长很长很长很长很长很长很长很长.bin", "emoji😀😀😀😀😀😀😀😀😀😀😀😀😀😀.dat", "ééécombining.txt", "tab\tand\x07bell", strings.Repeat("long-name-", 30),
 	"", " ", "ｆｕｌｌｗｉｄｔｈ", "x", "العربية.txt", "한국어파일이름.zip",
+	"⭐✅⚡-starred-and-checked-⭐✅⚡-" + strings.Repeat("release-notes-", 6) + ".md", "ᄀᄁᄂᄃᄄᄅᄆᄇᄈᄉ" + strings.Repeat("ᄀᄁ", 30) + ".txt", "⏰⌚☔☕♈♿⚓⛄⛔✊✨❌❓➕⬛⭕" + strings.Repeat("x", 70),
 	"report-2024-final\nappendix-tables.csv", "cr\rname.txt", "nul\x00byte.bin", "\n", "three\nshort\nlines", "del\x7fete", "中文\n中文中文中文"}
 
 type vProgSink struct {
